@@ -29,6 +29,9 @@ UNITS = {
     # `arm64` (one `#[path] mod` line in arm64.rs, three `mod` lines in lib.rs; nothing inside existing items is touched)
     'a64p': dict(rows='contracts/a64p_rows.rs', mods=['spec/a64dec.rs'], crate='dora-asm', private=dict(host='src/arm64.rs', hostmod='arm64'),
                  src='dora-asm/src/arm64.rs', impl='impl AssemblerArm64'),
+    # baseline code generator's macro assembler (private module `masm` of dora-cannon-compiler): scratch copy + child module
+    'c09a': dict(rows='contracts/c09a_rows.rs', mods=['spec/x64dec.rs'], crate='dora-cannon-compiler', private=dict(host='src/masm.rs', hostmod='masm'),
+                 src='dora-cannon-compiler/src/masm/x64.rs', impl='impl MacroAssembler'),
     # items cut verbatim out of dora-runtime (the crate itself needs libc/mmap and is too heavy for Kani)
     'c10': dict(rows='contracts/c10_rows.rs', mods=[], crate=None, gen=lambda: _gen_c10_cut()),
 }
@@ -155,6 +158,8 @@ def gen_crate_private(unit, dest):
     with open(os.path.join(dest, 'src', 'bin', 'vp_run.rs'), 'w') as f:
         f.write(main)
     toml = open(os.path.join(dest, 'Cargo.toml'), encoding='utf-8').read()
+    # sibling crates are used where they are, in the working tree
+    toml = re.sub(r'path\s*=\s*"\.\./([^"]+)"', lambda m: 'path = "%s"' % os.path.join(root, m.group(1)), toml)
     toml += '\n[workspace]\n\n[lints.rust]\nunexpected_cfgs = { level = "allow", check-cfg = [\'cfg(kani)\'] }\n\n[profile.release]\ndebug-assertions = true\noverflow-checks = true\nopt-level = 1\n'
     with open(os.path.join(dest, 'Cargo.toml'), 'w') as f:
         f.write(toml)
@@ -280,9 +285,10 @@ def classify_check(fc, harness_dir):
     f = fc['file'] or ''
     if desc.startswith('VP:') or 'VP:' in desc:
         return 'violation'
-    in_harness = f.startswith(harness_dir) or '/vp_rows/' in f or f.startswith('src/')
-    if f.endswith('src/cut.rs') or f.endswith('src/arm64.rs') or f.endswith('src/x64.rs') or f.endswith('src/lib.rs'):
-        in_harness = False     # repository code (cut verbatim, or the copied crate of a private-API unit): its panics are refusals
+    # files that belong to the oracle / harness (everything else under the crate is repository code, whose panics are refusals)
+    base = os.path.basename(f)
+    in_harness = base in ('vp.rs', 'x64dec.rs', 'a64dec.rs', 'registry.rs', 'vp_run.rs', 'kx_main.rs', 'main.rs') \
+        or base.endswith('_rows.rs') or base.endswith('_requests.rs')
     if 'unwinding assertion' in desc or 'not supported' in desc or 'unsupported' in desc.lower():
         return 'undecided'
     if in_harness:
